@@ -411,10 +411,11 @@ def run(scenario, params, tape, detail=False):
             if tk is None:
                 continue
             k = sum(1 for (n, a) in cbs if n == name and _token_of(name, a) == tk)
-            if k == 1:
+            emitted = dup_emitted.count((name, tk))  # 8/16-bit tokens repeat in long runs
+            if 1 <= k <= emitted:
                 probe("dup_delivered_as_callback")
-            elif k > 1:
-                viol.append(("C06.cb", "dup-count", f"duplicate reply {name} token {tk} reached the callbacks {k} times"))
+            elif k > emitted:
+                viol.append(("C06.cb", "dup-count", f"duplicate reply {name} token {tk} was emitted {emitted} time(s) but reached the callbacks {k} times"))
     for k, v in rig.probes().items():
         probes[k] = probes.get(k, 0) + v
     outcomes = tuple((c["name"], c["result"][0] if c["result"] else None) for c in calls)
